@@ -713,43 +713,75 @@ func ruleUnpaddedSize(c *Ctx, r *Report, rule string, fn *ssa.Function, fHL, fCo
 	if fHL == nil || fComp == nil || fHash == nil {
 		return
 	}
-	var ret *ssa.Return
+	// candidates: the returned sum, or (when the function was inlined into its caller) every
+	// top-level sum in the function that contains the check size
+	var cands []ssa.Value
 	for _, b := range theCtx.GB(fn) {
 		for _, ins := range b.Instrs {
-			if x, ok := ins.(*ssa.Return); ok {
-				ret = x
+			switch x := ins.(type) {
+			case *ssa.Return:
+				if len(x.Results) == 1 && isIntegerType(x.Results[0].Type()) {
+					cands = append(cands, x.Results[0])
+				}
+			case *ssa.BinOp:
+				if x.Op != token.ADD {
+					continue
+				}
+				top := true
+				if refs := x.Referrers(); refs != nil {
+					for _, u := range *refs {
+						if bo, ok := u.(*ssa.BinOp); ok && bo.Op == token.ADD {
+							top = false
+						}
+					}
+				}
+				if top {
+					cands = append(cands, x)
+				}
 			}
 		}
 	}
-	terms := map[string]bool{}
-	extra := false
-	var walk func(v ssa.Value)
-	walk = func(v ssa.Value) {
-		v = stripConv(v)
-		if bo, ok := v.(*ssa.BinOp); ok && bo.Op == token.ADD {
-			walk(bo.X)
-			walk(bo.Y)
-			return
-		}
-		switch {
-		case isFieldLoadOf(v, fHL):
-			terms["headerLen"] = true
-		case roleGetter(c, fComp)(v):
-			terms["compressed"] = true
-		default:
-			if call, ok := v.(*ssa.Call); ok && call.Call.IsInvoke() && call.Call.Method.Name() == "Size" && isFieldLoadOf(call.Call.Value, fHash) {
-				terms["hashSize"] = true
+	eval := func(root ssa.Value) (map[string]bool, bool) {
+		terms := map[string]bool{}
+		extra := false
+		var walk func(v ssa.Value)
+		walk = func(v ssa.Value) {
+			v = stripConv(v)
+			if bo, ok := v.(*ssa.BinOp); ok && bo.Op == token.ADD {
+				walk(bo.X)
+				walk(bo.Y)
 				return
 			}
-			extra = true
+			switch {
+			case isFieldLoadOf(v, fHL):
+				terms["headerLen"] = true
+			case roleGetter(c, fComp)(v):
+				terms["compressed"] = true
+			default:
+				if call, ok := v.(*ssa.Call); ok && call.Call.IsInvoke() && call.Call.Method.Name() == "Size" && isFieldLoadOf(call.Call.Value, fHash) {
+					terms["hashSize"] = true
+					return
+				}
+				extra = true
+			}
+		}
+		walk(root)
+		return terms, extra
+	}
+	ok := false
+	best, bestExtra := map[string]bool{}, false
+	for _, cd := range cands {
+		terms, extra := eval(cd)
+		if !terms["hashSize"] && len(cands) > 1 {
+			continue // some other sum of the function
+		}
+		best, bestExtra = terms, extra
+		if len(terms) == 3 && !extra {
+			ok = true
 		}
 	}
-	if ret != nil && len(ret.Results) == 1 {
-		walk(ret.Results[0])
-	}
-	ok := len(terms) == 3 && !extra
 	r.Check(ok, rule, "TM-unpadded-size:"+FnName(fn), c.Pos(fn.Pos()), "unpadded size = header length + compressed size + check size",
-		fmt.Sprintf("unpadded size is not headerLen + compressed size + hash.Size() (terms found: %v, other terms: %v)", sortedKeys(terms), extra))
+		fmt.Sprintf("unpadded size is not headerLen + compressed size + hash.Size() (terms found: %v, other terms: %v)", sortedKeys(best), bestExtra))
 }
 
 func instrBefore(a, b ssa.Instruction) bool {
